@@ -574,7 +574,7 @@ def gen_cases(chk):
     grid = [4, 8, 12]
     seqs = [s for n in range(1, L + 1) for s in itertools.product(grid, repeat=n)]
     if not thorough:
-        seqs = [s for i, s in enumerate(seqs) if len(s) <= 2 or i % 3 == chk.seed % 3]
+        seqs = [s for i, s in enumerate(seqs) if len(s) <= 2 or i % 5 == chk.seed % 5]
     for klb, fmt in itertools.product([True, False], ["ep", "no", "mo"]):
         for s in seqs:
             mets = [(20 - v, v) for v in s]
@@ -596,7 +596,7 @@ def gen_cases(chk):
                 for k2 in range(tot - k1 + 7):
                     add("exhaustive-double", klb, fmt, mets, [k1, k2])
     # (c) random: longer histories, C15 parameter settings, several crashes
-    nrand = 6000 if thorough else 500
+    nrand = 6000 if thorough else 400
     for _ in range(nrand):
         n = rng.choice([1, 2, 3, 3, 4, 4, 5, 6, 7])
         style = rng.choice(["any", "any", "improving", "ties", "worsening"])
